@@ -196,3 +196,10 @@ package document
 // the document relationship list (and every other list) is not the owner
 //@ ensures forall r *Relationships :: r != d.relationships ==> r.Relationships == old(r.Relationships)
 //@ ensures unchangedExcept("map:string:[]byte", "Relationships.Relationships", "Relationship.*", "ContentTypes.Overrides", "Override.*")
+
+// ---- the single-property setters ---------------------------------------------------------------------------------------------
+// NOT under contract: SetTitle, SetAuthor, SetSubject, SetKeywords, SetDescription, SetCategory, UpdateStatistics. Each reads
+// the stored properties back (GetDocumentProperties: time.Now, xml.Unmarshal into a local CoreProperties/AppProperties whose
+// time.Time fields are copied field by field) and then calls SetDocumentProperties; everything they do to the package goes
+// through that call. With GetDocumentProperties inlined the wrappers produce ~220 obligations of 100 kB each that do not
+// discharge within the quick budget, so the claim stops at SetDocumentProperties.
